@@ -550,6 +550,32 @@ pub fn gen_resolve(run: &mut Run) {
         }
     }
     run.add("resolve", "resolver expressions".into(), sc);
+    // sequences of requests on ONE instance: the answer to a request must not depend on earlier requests (a member
+    // that lacks one choice still provides the others; the preferred member stays preferred)
+    let mut r = Rng64(0x7265_736f_6c76);
+    let all: Vec<(&str, &str)> = kinds.iter().flat_map(|(k, cs)| cs.iter().map(move |c| (*k, *c))).collect();
+    for e in exprs.iter().filter(|e| e.starts_with("fb(")) {
+        for rep in 0..3 {
+            let mut sc = Sc::new();
+            sc.ex.comment(&format!("resolve_on {e}: request sequence {rep} on one instance"));
+            let n = 14;
+            for step in 0..n {
+                // start with requests some member cannot serve, then everything in random order
+                let (kind, c) = if step < 3 {
+                    [("dh", "Curve448"), ("cipher", "XChaChaPoly"), ("hash", "Blake2s"), ("dh", "P256"), ("cipher", "AESGCM")][r.below(5)]
+                } else {
+                    all[r.below(all.len())]
+                };
+                let got = sc.ex.resolve_on(e, kind, c);
+                sc.count("resolve");
+                let fresh = crate::exec::resolve_line(e, kind, c);
+                if got != fresh {
+                    sc.viol("C20", format!("resolve {e} {kind} {c} after {step} earlier requests on the same resolver: got `{got}`, a fresh resolver gives `{fresh}`"));
+                }
+            }
+            run.add("resolve", format!("request sequence on one {e}"), sc);
+        }
+    }
 }
 
 // ------------------------------------------------------------------ transport
